@@ -38,6 +38,13 @@ func globalRoot(v ssa.Value, d int, seen map[ssa.Value]bool) *ssa.Global {
 			}
 		}
 	case *ssa.UnOp:
+		// a pointer-like value read out of a package-level variable (var shared = NewThing()) is shared as well
+		if g, ok := x.X.(*ssa.Global); ok {
+			switch x.Type().Underlying().(type) {
+			case *types.Pointer, *types.Map, *types.Slice, *types.Chan:
+				return g
+			}
+		}
 		// a load of a local cell that was stored a global's address (var p = &g)
 		if a, ok := x.X.(*ssa.Alloc); ok {
 			for _, r := range *a.Referrers() {
@@ -585,4 +592,46 @@ func scriptDispatch(c *Ctx, rule string) {
 		detail = "no method of the script is called: the dispatch is not recognised"
 	}
 	c.R.Check(len(bad) == 0 && len(used) > 0, rule, "core/stores/redis.(*Redis).ScriptRunCtx#dispatch", "scripts are sent with Script.Run/Eval (EVALSHA falling back to EVAL), never with a bare EvalSha/Load", posOf(c, f), detail, bad, len(used))
+}
+
+// instanceStateFresh (round 5): the mutable state of an instance belongs to that instance. For every composite
+// literal of struct type pkg.typ built anywhere in pkg, a field of pointer, map, slice or channel type is
+// initialised from a value made for this instance (a constructor call, make, a literal, a parameter) — never
+// from a package-level variable: what one instance records there (an overload timestamp, a window, a flag)
+// would be seen by every other instance. Function-typed and interface-typed fields are exempt (shared
+// behaviour, not state). Returns violations and the number of field initialisations examined.
+func (c *Ctx) instanceStateFresh(pkg, typ string, exemptFields ...string) (bad []string, sites int) {
+	for _, f := range c.P.AllFuncs(pkg) {
+		for _, b := range f.Blocks {
+			for _, ins := range b.Instrs {
+				st, ok := ins.(*ssa.Store)
+				if !ok {
+					continue
+				}
+				fa, ok := st.Addr.(*ssa.FieldAddr)
+				if !ok {
+					continue
+				}
+				al, ok := fa.X.(*ssa.Alloc)
+				if !ok || !strings.HasSuffix(typeString(al.Type()), pkg+"."+typ) {
+					continue
+				}
+				name := fieldNameOf(fa)
+				if nameIn(name, exemptFields) {
+					continue
+				}
+				switch st.Val.Type().Underlying().(type) {
+				case *types.Pointer, *types.Map, *types.Slice, *types.Chan:
+				default:
+					continue
+				}
+				sites++
+				if g := globalRoot(st.Val, 0, map[ssa.Value]bool{}); g != nil {
+					bad = append(bad, fmt.Sprintf("%s: %s initialises %s.%s from package-level variable %s: the state is shared by every %s", c.P.Pos(st.Pos()), f.Name(), typ, name, g.Name(), typ))
+				}
+			}
+		}
+	}
+	sort.Strings(bad)
+	return
 }
